@@ -338,7 +338,17 @@ pub fn replay(r: &serde_json::Value) -> i32 {
     };
     let mut vios = vec![];
     let mut stats = SchedStats::default();
-    let dfs = Dfs::replaying(schedule_from_json(r), 0, FaultPolicy::None);
+    let mut dfs = if spec.worker_faults {
+        let mut d = Dfs::replaying(schedule_from_json(r), 1, FaultPolicy::WorkerEioUnlink);
+        d.fault_inst = Some(0);
+        d
+    } else {
+        Dfs::replaying(schedule_from_json(r), 0, FaultPolicy::None)
+    };
+    if spec.worker_faults {
+        sched::set_park_timeout(Some(std::time::Duration::from_secs(20)));
+    }
+    dfs.use_sleep = true;
     match explore_with(&spec, &mut vios, &mut stats, Instant::now() + std::time::Duration::from_secs(120), dfs) {
         Err(Machinery(m)) => {
             println!("REPLAY property=C14 could not be replayed on this tree: {}", m);
